@@ -581,6 +581,8 @@ class Printer:
             if i:
                 self.t(",")
             self.t(*type_tokens(ty))
+            if nm.startswith("unnamed_"):
+                continue   # a parameter without a name: only its type is written
             self.mark("param", nm)
             self.t(nm)
         self.t(")", "->")
@@ -704,7 +706,8 @@ def tokenize(text):
     n = len(text)
     while i < n:
         ch = text[i]
-        if ch in " \t\n":
+        if ch in " \t\n" or (ch == "\r" and text[i + 1:i + 2] == "\n"):
+            # a carriage return in front of a line feed (CRLF text): the lexer reports it and skips it
             i += 1
             continue
         m = _TOKEN_RE.match(text, i)
